@@ -7,6 +7,12 @@ root = os.path.dirname(os.path.dirname(os.path.abspath(__file__)))
 spec = json.load(open(os.path.join(root, "tools", "checks.json")))
 props = [json.loads(l) for l in open(os.path.join(root, "properties.jsonl")) if l.strip()]
 claimed = {c["property_id"]: c for c in spec["checks"]}
+try:
+    levels = dict(l.split() for l in subprocess.check_output(["/verif/harness/target/release/rv", "list"], text=True).splitlines())
+    for pid, c in claimed.items():
+        assert levels.get(pid) == c["category"], f"{pid}: code level {levels.get(pid)} != manifest category {c['category']}"
+except FileNotFoundError:
+    pass
 checks = []
 for p in props:
     c = claimed.get(p["id"])
